@@ -419,6 +419,29 @@ def run(prog, chk):
     if c12.unterminated_rule(prog, r9) < 3:
         raise Broken("fewer than 3 scan functions with an end-of-input recovery found")
 
+    r11 = chk.rule("R11-parser-ownership", "in the parser units every object a function acquires is released or handed over exactly once "
+                   "on every path, with no use or release after release - recovery arms included (the ownership typestate of C16 R1 "
+                   "restricted to parser.c and ciffile.c)", primary=False, floor=10)
+    from . import c16
+    reports, res = c16.ownership_reports(prog)
+    badf = set()
+    for rp in reports:
+        fn = rp["fn"]
+        if rp["oom_only"] or fn.unit not in ("parser.c", "ciffile.c") or c16.exempt(rp):
+            continue
+        badf.add(fn.key)
+        if rp["kind"] == "leak":
+            msg = "%s acquired at L%s (%s) is neither released nor handed over on some path" % (
+                rp["var"] or rp["names"] or "the allocation", rp["acq_line"], rp["callee"])
+        else:
+            msg = "%s (acquired at L%s by %s): %s" % (rp["kind"], rp["acq_line"], rp["callee"], rp["detail"])
+        r11.violation(fn.file, fn.name, rp["acq_line"], c16.report_key(rp), msg, path=["L%s" % x for x in rp["state"].trail_lines()][-25:])
+    for key, it in sorted(res.items()):
+        f = prog.fn_by_key(key) if hasattr(prog, "fn_by_key") else None
+        unit = key.split(":")[0] if ":" in key else (f.unit if f else "")
+        if unit in ("parser.c", "ciffile.c") and key not in badf and not it.overflow:
+            r11.ok(key, "%d acquisition site(s)" % len(it.acq_nodes), n=max(1, len(it.acq_nodes)))
+
     r10 = chk.rule("R10-failure-indicator-comes-with-its-code", "a character source that reports failure by a negative count has stored the "
                    "reason through its error-code parameter on every such path: get_more_chars returns that variable as the result "
                    "of the parse (shared with C17 R16)", primary=False, floor=2)
